@@ -121,6 +121,22 @@ def load_known():
     return json.load(open(p))
 
 
+def replay_witness(k, root):
+    """-> True if the recorded witness of an open known finding still shows the defect on the real code."""
+    if k.get('witness_py'):
+        r = rp.run_real([{'setup': k.get('witness_setup', ''), 'expr': k['witness_py']}], prelude=k.get('witness_prelude', ''), root=root)[0]
+        return bool(r['ok'] and r['repr'] == 'True')
+    if k.get('witness_rs'):
+        from .rsreal import RustReal
+        rr = RustReal(root)
+        try:
+            out = rr.run([k['witness_rs']])[0]
+        finally:
+            rr.close()
+        return (out[0] + ' ' + out[1]).strip() == k['witness_rs_defect']
+    return None
+
+
 def label_of(obname):
     # '<unit>/post:sound' -> 'sound'
     tail = obname.split('/')[-1]
@@ -306,6 +322,19 @@ def run_property(spec, tier='quick', seed=0, root='/repo', jobs=None):
         path = os.path.join(replay_dir, fn)
         write_json(path, rec)
         final_viol.append((name, path, confirmed))
+    # ---- open known findings whose failing class is excluded from the obligations (region): replay the witness on the real code ----
+    for k in open_known:
+        if not k.get('witness_py') and not k.get('witness_rs'):
+            continue
+        try:
+            still = replay_witness(k, root)
+        except Exception as e:
+            still = None
+            print(f"NOTE property={pid} known finding {k.get('id')}: witness could not be replayed ({e!r})")
+        if still:
+            known_hit.append((k, k.get('obligation', k.get('id'))))
+        elif still is False:
+            print(f"NOTE property={pid} known finding {k.get('id')} is stale: its witness no longer fails on this tree")
     # ---- report -------------------------------------------------------------------------------------------------------------
     printed_known = set()
     for k, name in known_hit:
